@@ -149,16 +149,19 @@ CHECKS = {
         ref="4 C11", technique="Coq proof (lia/nia over lattice translates, walk induction) + py2v translation + dumped tables + vm_compute correspondence",
         note=TB + " random.random() is modelled as k/2^53 and randint by an arbitrary function meeting its contract."),
     "C16": dict(
-        text="Partial by nature (numpy internals modelled from observation). Flocq binary64 model, bit-exact against the code. "
+        text="Partial by nature (numpy internals modelled from observation). Flocq binary64 model, bit-exact against the code, and "
+             "TIED TO THE SOURCE TEXT: every function of type_casts.py is re-extracted (ast, fail closed) on each run into a small "
+             "syntax whose evaluator is proved equal to the model functions for all inputs (C16_source_is_model). "
              "Theorems for every finite x whose scaled product is finite and every format: float_to_fp equals "
              "clamp(trunc(x * 2^n_frac)) on the real value, stays in range, is monotone, saturates, is within one lsb; round trip "
-             "for every representable value that is a double (and its refutation at 2^53+1, the known finding); the repaired "
-             "array converter equals the scalar one for 8/16/32/64 bits; the deprecated pair agrees modulo 2^n; refutations for the "
-             "two saturation defects of the code as found; error branches. Exact-rational (Fraction) oracle; bit-exact correspondence.",
+             "for every representable value that is a double (refuted at 2^53+1, the known finding); the repaired array converter "
+             "equals the scalar one for 8/16/32/64 bits; the deprecated pair agrees modulo 2^n; refutations for the two saturation "
+             "defects as found; documented errors. Exact-rational oracle (also float32/16/longdouble, numpy scalars, errstate).",
         ref="4 C16", technique="Coq proof over Flocq binary64 (Bmult_correct, rounding monotonicity) + bit-exact vm_compute correspondence",
         note=TB + " Axioms (from Flocq/Reals, standard library): ClassicalDedekindReals.sig_forall_dec, sig_not_dec, "
              "FunctionalExtensionality.functional_extensionality_dep, Classical_Prop.classic. numpy clip / int conversion / "
-             "out-of-range cast are modelled as observed on numpy 2.5; float32 and integer input arrays are not modelled."),
+             "out-of-range cast are modelled as observed on numpy 2.5; float32/float16/longdouble inputs, ambient errstate, array "
+             "shape/layout/aliasing are judged by the oracle only (the model is per element and binary64)."),
     "C19": dict(
         text="Full. The SpiNN-5 tiling is described independently (48-chip hexagon; Ethernet chips at "
              "root + 12(i,j) + {(0,0),(4,8),(8,4)}); theorems for all integer coordinates, sizes and roots about the tables DUMPED "
